@@ -197,7 +197,7 @@ def run(rep: Report, tier: str) -> None:
     # ---------------------------------------------------------------- C18.d
     rd = rep.rule("C18.d", "who-may-write table: filesystem-mutating call sites are exactly the tabled ones with the tabled path arguments", floor=6)
     table = {
-        ("rp2.logger", "<module>", "mkdir"): lambda n: unparse(n.func.value) == "Path('./log')",
+        ("rp2.logger", "<module>", "mkdir"): lambda n: isinstance(n.func.value, ast.Call) and unparse(n.func.value.func) == "Path" and len(n.func.value.args) == 1 and _folds_to(prog, "rp2.logger", n.func.value.args[0]) == "./log",
         ("rp2.logger", "create_logger", "FileHandler"): lambda n: [unparse(a) for a in n.args] == ["LOG_FILE"] and _log_file_under_log(prog),
         ("rp2.rp2_main", "_setup_paths", "mkdir"): lambda n: unparse(n.func.value) == "output_dir_path" and _defined_as(n, "output_dir_path", "Path(output_dir)"),
         ("rp2.plugin.report.abstract_ods_generator", "AbstractODSGenerator._initialize_output_file", "unlink"): lambda n: unparse(n.func.value) == "output_file_path" and _out_path_ok(n),
@@ -255,11 +255,27 @@ def _is_path_receiver(mod, recv: ast.AST) -> bool:
     return txt.startswith("Path(") or "path" in txt.lower().split(".")[-1]
 
 
+def _folds_to(prog, module: str, node: ast.AST):
+    """Constant value of an expression (module constants substituted), or UNKNOWN."""
+    from ..consts import fold
+
+    return fold(prog, module, node)
+
+
 def _log_file_under_log(prog) -> bool:
+    """LOG_FILE is a path directly under ./log: its leading constant part (module constants substituted) starts with './log/' and nothing variable precedes it."""
+    from ..consts import UNKNOWN
+
     stmt = prog.module_assigns.get("rp2.logger", {}).get("LOG_FILE")
     v = getattr(stmt, "value", None)
-    if isinstance(v, ast.JoinedStr) and v.values and isinstance(v.values[0], ast.Constant):
-        return str(v.values[0].value).startswith("./log/")
+    if isinstance(v, ast.JoinedStr) and v.values:
+        head = ""
+        for part in v.values:
+            piece = part.value if isinstance(part, ast.Constant) else _folds_to(prog, "rp2.logger", part.value) if isinstance(part, ast.FormattedValue) and part.format_spec is None and part.conversion == -1 else UNKNOWN
+            if not isinstance(piece, str):
+                break
+            head += piece
+        return head.startswith("./log/")
     return isinstance(v, ast.Constant) and str(v.value).startswith("./log/")
 
 
